@@ -56,6 +56,7 @@ static bool gen_c18(uint64_t seed, const std::string &tier, uint64_t i, Plan &p)
     if (r.chance(0.2)) s += "foop/1";   // unterminated tail
     p.ops.push(Json::obj().set("op", "stream").set("bytes", s));
     p.label = "clean " + lab;
+    if (r.chance(0.25)) { int nf = (int)r.range(1, 2); for (int q = 0; q < nf; q++) { Fault f; f.actor = "qmail-clean"; f.call = C_UNLINK; f.nth = (int)r.range(1, 6); f.kind = "error"; f.err = r.pick(std::vector<int>{EIO, EROFS, EACCES, EBUSY, EISDIR}); p.faults.push_back(f); } }   /* a removal that fails for real: one status byte, and the second file stays */
     return true;
   }
   if (m <= 5) {   // (b) spawners
